@@ -298,8 +298,8 @@ def run(h):
     passed, skipped = selfcheck.ref_interp_vectors()
     h.coverage_extra["reference_validated"] = "reference interpreter reproduces %d Octez opcode vectors" % passed
     size, depth = ((1, 8), 2) if h.quick else ((1, 16), 3)
-    h.run_given(lambda: cases(size, depth), _prop, h.n(70, 4000), shards=16, classify=classify, name="stack")
-    h.run_given(lambda: contract_cases(size, depth), _prop, h.n(14, 1200), shards=16, classify=classify, name="contract")
+    h.run_given(lambda: cases(size, depth), _prop, h.n(70, 1500), shards=16, classify=classify, name="stack")
+    h.run_given(lambda: contract_cases(size, depth), _prop, h.n(14, 400), shards=16, classify=classify, name="contract")
     # every arithmetic instruction on boundary operands of every sign (results such as `None : option nat` exist only for some signs)
     from checks.c01 import arith_cases
     h.run_enum(arith_cases(), _prop, shards=16, classify=classify)
